@@ -20,21 +20,33 @@ type Opts struct {
 	// NestedInline allows inline objects nested inside other objects (goa generates
 	// uncompilable transport code for some of them: known finding of C01).
 	NestedInline bool
+	// Risky places one attribute name that generated code may collide with (see RiskyNames).
+	Risky bool
 }
 
 var primNames = []string{"Boolean", "Int", "Int32", "Int64", "UInt", "UInt32", "UInt64", "Float32", "Float64", "String", "Bytes"}
 var attrNames = []string{"id", "name", "a_b", "value", "count", "type", "kind", "x", "tags", "data", "flag", "num", "ratio", "go", "len", "Q", "item_id", "created_at"}
+
+// RiskyNames are attribute names that generated code also uses for its own locals, parameters,
+// imports, or that are Go keywords / predeclared identifiers. Each design gets exactly one of
+// them (chosen by its index), so that a compile failure can be attributed.
+var RiskyNames = []string{"v", "c", "p", "err", "body", "res", "ctx", "req", "resp", "w", "r", "e", "ok", "s", "mux", "enc", "dec", "val", "key", "i",
+	"strconv", "fmt", "http", "goa", "view", "result", "payload", "string", "int", "error", "nil", "true", "new", "make", "range", "func", "map", "var",
+	"package", "select", "default", "interface"}
+
 var typeNames = []string{"Account", "Item", "Node", "Thing", "Detail", "Info"}
 var methodNames = []string{"list", "show", "add", "remove", "update", "run", "do_it", "get2"}
 var svcNames = []string{"store", "calc", "front", "svc"}
 var formats = []string{"date", "date-time", "uuid", "email", "hostname", "ipv4", "ipv6", "ip", "uri", "mac", "cidr", "regexp", "json", "rfc1123"}
 
 type gen struct {
-	r     *lp.Rng
-	d     *Design
-	o     Opts
-	tnum  int
-	depth int
+	risky     string
+	riskyUsed bool
+	r         *lp.Rng
+	d         *Design
+	o         Opts
+	tnum      int
+	depth     int
 }
 
 func fp(f float64) *float64 { return &f }
@@ -49,6 +61,9 @@ func Generate(r *lp.Rng, o Opts) *Design {
 		o.MaxMethod = 3
 	}
 	g := &gen{r: r, o: o, d: &Design{API: "api" + fmt.Sprint(o.Index)}}
+	if o.Risky {
+		g.risky = RiskyNames[(o.Index/7)%len(RiskyNames)]
+	}
 	if o.Security {
 		g.schemes()
 	}
@@ -60,6 +75,11 @@ func Generate(r *lp.Rng, o Opts) *Design {
 }
 
 func (g *gen) pickName(used map[string]bool, pool []string) string {
+	if g.risky != "" && !g.riskyUsed && len(pool) == len(attrNames) && g.r.Intn(3) == 0 && !used[g.risky] {
+		g.riskyUsed = true
+		used[g.risky] = true
+		return g.risky
+	}
 	for i := 0; i < 50; i++ {
 		n := lp.Pick(g.r, pool)
 		if !used[n] {
@@ -125,7 +145,9 @@ func (g *gen) validation(prim string, idx int) *Validation {
 			lo += 0.5
 			hi += 0.25
 		}
-		switch pick % 6 {
+		switch pick % 7 {
+		case 6:
+			return &Validation{ExMin: fp(lo), ExMax: fp(hi + 1)} // both exclusive bounds on one attribute
 		case 0:
 			return &Validation{Min: fp(lo)}
 		case 1:
@@ -150,6 +172,10 @@ func (g *gen) validation(prim string, idx int) *Validation {
 	case 1:
 		return &Validation{MaxLen: ip(3 + r.Intn(6))}
 	case 2:
+		if r.Intn(2) == 0 {
+			n := 1 + r.Intn(3)
+			return &Validation{MinLen: ip(n), MaxLen: ip(n)} // equal bounds
+		}
 		return &Validation{MinLen: ip(2), MaxLen: ip(5)}
 	case 3:
 		return &Validation{Pattern: lp.Pick(r, []string{"^[a-z]+$", "^x", "[0-9]", "^(a|b)c?$"})}
@@ -249,6 +275,9 @@ func (g *gen) bodyType(depth int) *Att {
 		switch r.Intn(6) {
 		case 0:
 			a.Val = &Validation{MinLen: ip(r.Intn(2)), MaxLen: ip(2 + r.Intn(3))}
+		case 3:
+			n := r.Intn(3)
+			a.Val = &Validation{MinLen: ip(n), MaxLen: ip(n)} // equal bounds
 		case 1:
 			a.Val = &Validation{MaxLen: ip(1 + r.Intn(2))}
 		case 2:
